@@ -88,6 +88,14 @@ CLAIMS = {
             "overlay, name matches, Access permitted), C18_wallet_accounts, C18_created_account_listed; correspondence of the real lister "
             "(service and gRPC handler) as a multiset, before and after dynamic account creation; soundness and completeness also "
             "monitored with the real checker", "5 C18"),
+    "C20": ("Theorems C20_decoder_capacity, C20_no_panic (for every Signer request that came out of the protobuf decoder - any field absent "
+            "or of any length, any numbers, batches of any length, any names and keys - and every configuration, store and caller, the "
+            "handler path reaches no panicking operation: per-position response arrays, the capacity-bounded Domain[0:4] of the rules layer), "
+            "C20_every_request_answered (one entry per request), C20_key_generation_from_non_peers; lemma that the same call without the "
+            "wire's capacity guarantee is flagged, confirmed on the real rules service. PARTIAL: Lister / AccountManager / WalletManager "
+            "paths, library panics, goroutine effects and resource exhaustion are covered by the harness run only. Correspondence: "
+            "schema-driven requests (mostly-valid and malformed streams) through a protobuf round trip into the real handlers under a "
+            "recovering wrapper; states, signature presence, stores and decoded capacities compared with the model; liveness probe", "5 C20"),
 }
 
 
